@@ -204,6 +204,19 @@ static void apply(const struct op *o, struct mstate *m) {
         if (st != want) { snprintf(k, sizeof k, "c10:enable-return:%s", o->name); BADV(k, "%s returned %d, expected %d", o->name, st, want); }
     } break;
     case O_INJECT: {
+        if (o->c == 1) {    /* re-entrancy: the allocator callback of a create installs the other table (an application finishing its set-up lazily);
+                             * every dependency call made after that moment goes through the new table.  Which calls a create makes after allocating is
+                             * not prescribed, so the only oracles are "nothing of the old table is called afterwards", the status and the ledger; the seed
+                             * is released at once (through the new table). */
+            if (m->nullpat) { st = want = 0; break; }          /* only from a fully injected table (the callback must exist) */
+            int other = 1 - m->table; E_reinject_from_alloc = other;
+            polyseed_data *t = NULL; alloc_expected = 1; st = polyseed_create(0, &t); want = m->armed ? ST_MEMORY : ST_OK;
+            if (E_reinject_from_alloc >= 0) { E_reinject_from_alloc = -1; BADV("c18:reentrant-injection:no-callback", "%s: create never called the injected allocator", o->name); }
+            else { m->table = other; m->nullpat = 0; }
+            if (st == POLYSEED_OK) polyseed_free(t);
+            if (E_stale_calls) { snprintf(k, sizeof k, "c18:stale-after-reentrant-injection:%s", o->name); BADV(k, "%s: %lu calls went to functions of the table that had already been replaced from inside the allocator callback", o->name, E_stale_calls); }
+            break;
+        }
         polyseed_dependency d; deps_variant(o->a, o->b & 1, o->b & 2, o->b & 4, &d);
         polyseed_inject(&d); memset(&d, 0xEE, sizeof d);      /* the caller's struct is gone */
         m->table = o->a; m->nullpat = o->b; st = want = 0;
@@ -489,7 +502,7 @@ static void build_profile(void) {
         for (int s = 0; s < 2; s++) { add_op(O_CREATE, s, s ? 1 : 0, s, "create(slot%d,features=%d)", s, s ? 1 : 0); add_op(O_FREE, s, 0, 0, "free(slot%d)", s); add_op(O_CRYPT, s, s, 0, "crypt(slot%d,pw%d)", s, s); }
         add_op(O_RELOAD, 0, 1, 0, "load(store(slot0))->slot1"); for (int v = 0; v < NREC; v++) add_op(O_RECODE, 0, 1, v, "decode%s(encode(slot0,%s))->slot1", RECODES[v].autodetect ? "" : "_explicit", RL[RECODES[v].li].code);
         add_op(O_ENABLE, 1, 0, 0, "enable_features(1)");
-        add_op(O_INJECT, 0, 0, 0, "inject(A)"); add_op(O_INJECT, 1, 0, 0, "inject(B)"); add_op(O_INJECT, 1, 1, 0, "inject(B:time=NULL)"); add_op(O_INJECT, 0, 1, 0, "inject(A:time=NULL)");
+        add_op(O_INJECT, 0, 0, 0, "inject(A)"); add_op(O_INJECT, 1, 0, 0, "inject(B)"); add_op(O_INJECT, 1, 1, 0, "inject(B:time=NULL)"); add_op(O_INJECT, 0, 1, 0, "inject(A:time=NULL)"); add_op(O_INJECT, 0, 0, 1, "create+free while the allocator callback injects the other table");
         add_op(O_ARM, 0, 0, 0, "arm-allocation-fault"); add_op(O_BADCALL, 0, 0, 0, "load(bad-checksum)"); add_op(O_BADCALL, 4, 0, 0, "decode(wrong-coin)");
     } else if (P_INJECT) {
         NSLOT = 1;
